@@ -63,6 +63,20 @@ Spectrum == LET A == Avk(IntM(K), IntM(Sa), IntM(Sy))
                 B == MSub(Id(N), A)
             IN /\ Le(R(0), E1(A)) /\ Le(R(0), Det(A)) /\ (N >= 2 => Le(R(0), E2(A)))
                /\ Lt(R(0), E1(B)) /\ Lt(R(0), Det(B)) /\ (N >= 2 => Lt(R(0), E2(B)))
+\* scale covariance: multiplying BOTH covariances by c multiplies S by c and leaves G and A unchanged
+\* (the harness uses it with c = 2^-40: correlated covariances at a very small absolute scale)
+Scaled(X, c) == Mat(Rows(X), Cols(X), LAMBDA i, j : Mul(X[i][j], c))
+ScaleLaw == LET k == IntM(K)  sa == IntM(Sa)  sy == IntM(Sy)  c == Frac(1, 4)
+            IN /\ Post(k, Scaled(sa, c), Scaled(sy, c)) = Scaled(Post(k, sa, sy), c)
+               /\ GainN(k, Scaled(sa, c), Scaled(sy, c)) = GainN(k, sa, sy)
+\* a family with an unobserved state direction and measurement noise c (closed forms, checked for rational c):
+\*   K = (1 0), Sa = I, Sy = (c):   S = diag(c/(1+c), 1),  G = (1/(1+c), 0)^T,  A = diag(1/(1+c), 0)
+LimitFamily == \A c \in {R(1), Frac(1, 2), Frac(1, 100)} :
+    LET k == <<<<R(1), R(0)>>>>  sa == Id(2)  sy == <<<<c>>>>  d == Add(R(1), c)
+    IN /\ Post(k, sa, sy) = <<<<Div(c, d), R(0)>>, <<R(0), R(1)>>>>
+       /\ GainN(k, sa, sy) = <<<<Inv(d)>>, <<R(0)>>>>
+       /\ Avk(k, sa, sy) = <<<<Inv(d), R(0)>>, <<R(0), R(0)>>>>
+
 Emit == LET k == IntM(K)  sa == IntM(Sa)  sy == IntM(Sy)
             S == Post(k, sa, sy)  G == MM(MM(S, Tr(k)), MInv(sy))  A == MM(G, k)
         IN PrintT(<<"CASE", ToJson([K |-> K, Sa |-> Sa, Sy |-> Sy, S |-> S, G |-> G, A |-> A,
